@@ -11,7 +11,7 @@ Tree tokens (prefix form):
   `L <label> <caps b|q|s|z> <failReq> <failRes> <scope>` | `U<variant>` | `X<variant>`
   `F <scope> <agg> <n> child*n` | `P <scope> <n> (<prio> child)*n` | `C <cond> <scope> <hasElse> then [else]`
   scope: `n` (absent/null) | `e` (`[]`) | string over q (request) s (response) x (anything else)
-  cond:  `m:<method>` | `u:<scheme>:<host>:<path>:<query>` | `q:<name>:<value>` | `h:<name>:<value>` | `c:<name>:<value>` (hex)
+  cond:  `m:<method>` | `u:<scheme>:<host>:<path>:<query>` | `q:<name>:<value>` | `h:<name>:<value>` | `c:<name>:<value>` (hex) | `p:<port>` (decimal)
   JSON value tokens (prefix form): `N` | `T` | `F` | `#<number literal>` | `S<hex>` | `A<n> value*n` | `O<n> (<hex key> value)*n`
   message: 14 `;`-separated fields: method;scheme;host;path;rawQuery;req.Host;req.ContentLength;req.TransferEncoding;
            request headers;request cookies;res.ContentLength;res.TransferEncoding;response headers;response cookies
@@ -47,6 +47,7 @@ def parseCond (s : String) : Option Cond :=
   | ["q", a, b] => match unhex a, unhex b with | some a, some b => some (.query a b) | _, _ => none
   | ["h", a, b] => match unhex a, unhex b with | some a, some b => some (.header a b) | _, _ => none
   | ["c", a, b] => match unhex a, unhex b with | some a, some b => some (.cookie a b) | _, _ => none
+  | ["p", a] => (parseInt a).map Cond.port
   | _ => none
 
 def parsePairs (s : String) : Option (List (Bytes × Bytes)) :=
@@ -215,7 +216,7 @@ end
 /-- names registered in the harness process by the filter packages' siblings, outside the model -/
 def otherRegistered : List Bytes := ["header.Modifier", "header.RegexFilter", "header.Append", "header.Blacklist", "header.Copy", "header.Id",
   "header.Verifier", "cookie.Modifier", "url.Modifier", "url.RegexFilter", "url.Verifier", "method.Verifier", "querystring.Modifier",
-  "querystring.Verifier"].map strBytes
+  "querystring.Verifier", "port.Modifier"].map strBytes
 
 mutual
 def mentionsOther : JVal → Bool
